@@ -15,7 +15,7 @@ content:
 layout:
     byteorder "<" | ">", compress bool, zlevel, version 1..4, ct_block, ct_order, ct_pos "before_data"|"after_data",
     rt_block (fan-out), ips (items per data block), node_order in NODE_ORDERS, order_seed, pad_nodes bool,
-    zooms [reduction...], zoom_ips, zoom_count_word bool, trailing_magic bool, ubs_slack int
+    zooms [reduction...], zoom_ips, zoom_count_word bool, zoom_cross_chrom bool, trailing_magic bool, ubs_slack int
 Python stdlib only; written from the format description, shares nothing with bigtools or with decode.py
 except the statistics helpers' *definitions* (each module has its own implementation).
 """
@@ -412,19 +412,26 @@ def encode_with_model(content, layout):
     # --- zoom blocks
     zlevels = []
     zips = layout.get("zoom_ips", ips)
+    cross_chrom = bool(layout.get("zoom_cross_chrom"))
+    n_cross = [0]
     for red in zooms:
         recs = zoom_records(content, red)
         zb = []
         i = 0
         while i < len(recs):
             j = i
-            while j < len(recs) and j - i < zips and recs[j][1] == recs[i][1]:
+            # UCSC packs itemsPerSlot zoom records per block straight across chromosome boundaries
+            # (layout zoom_cross_chrom); bigtools itself starts a new block at every chromosome.
+            while j < len(recs) and j - i < zips and (cross_chrom or recs[j][1] == recs[i][1]):
                 j += 1
             grp = recs[i:j]
             b = bytearray()
             for (_, cid, s, e, valid, mn, mx, sm, sq) in grp:
                 b += struct.pack(bo + "IIIIffff", cid, s, e, valid, mn, mx, sm, sq)
-            zb.append((grp[0][1], grp[0][2], max(x[3] for x in grp), pack_block(bytes(b))))
+            hi = max((x[1], x[3]) for x in grp)
+            if hi[0] != grp[0][1]:
+                n_cross[0] += 1
+            zb.append((grp[0][1], grp[0][2], hi[0], hi[1], pack_block(bytes(b))))
             i = j
         zlevels.append((red, recs, zb))
     # --- assemble
@@ -476,8 +483,8 @@ def encode_with_model(content, layout):
         if layout.get("zoom_count_word"):
             out += struct.pack(bo + "I", len(recs))
         zleaf = []
-        for (cid, lo, hi, b) in zb:
-            zleaf.append((cid, lo, cid, hi, len(out), len(b)))
+        for (cid, lo, ecid, hi, b) in zb:
+            zleaf.append((cid, lo, ecid, hi, len(out), len(b)))
             out += b
         zindex = len(out)
         b, info = _rtree_bytes(bo, zindex, zleaf, fanout, zips, order if order != "nonleaf_last" else "level", rng, pad)
@@ -515,7 +522,7 @@ def encode_with_model(content, layout):
         types_present=sorted(types_present),
         uncompress_buf_size=ubs,
         facts=dict(ct_levels=ct_info["levels"], rt_levels=index_info["levels"], zoom_rt_levels=[z["levels"] for z in zoom_infos],
-                   n_blocks=len(blocks), zoom_blocks=[z["blocks"] for z in zoom_infos], nonleaf_node_last_in_file=nonleaf_tail,
+                   n_blocks=len(blocks), zoom_blocks=[z["blocks"] for z in zoom_infos], zoom_blocks_spanning_chroms=n_cross[0], nonleaf_node_last_in_file=nonleaf_tail,
                    trailing_magic=trailing, index_last=index_last, bytes=len(data)),
     )
     return data, model
@@ -712,6 +719,7 @@ def gen_layout(rng, content, node_order=None, version=None, byteorder=None, comp
         pad_nodes=rng.random() < 0.15,
         zooms=zooms,
         zoom_ips=rng.choice([1, 2, 3, 8]),
+        zoom_cross_chrom=rng.random() < 0.5,
         zoom_count_word=rng.random() < 0.5,
         trailing_magic=True if version >= 2 else rng.random() < 0.5,
         ubs_slack=rng.choice([0, 0, 1, 100, 32768]),
